@@ -189,7 +189,7 @@ def variant(sc, mm):
     return s
 
 
-def run_lfht(ctx, comp, scenarios, nseeds, nsim, both_modes=True, mc_timeout=3000, mm_variants=(), workers=None):
+def run_lfht(ctx, comp, scenarios, nseeds, nsim, both_modes=True, mc_timeout=3000, mm_variants=(), workers=None, conf_only=()):
     """Two lanes side by side: TLC model checking of every scenario (its own thread, VERIF_TLC_WORKERS workers), and the conformance
     lane (driver runs, step-level and history-level trace validation, schedule replay: one TLC worker at a time)."""
     import threading
@@ -204,6 +204,8 @@ def run_lfht(ctx, comp, scenarios, nseeds, nsim, both_modes=True, mc_timeout=300
         for sc in scs:
             if stop.is_set():
                 return
+            if sc["name"] in conf_only:     # executions validated against the specification; the exhaustive TLC run of this scenario is in the thorough tier
+                continue
             try:
                 mcres.append((sc,) + mc_run(ctx.pid, comp, sc, mc_timeout, workers))
                 if mcres[-1][1].violation:
